@@ -37,7 +37,7 @@ unsigned g_alloc_count, g_delete_count, g_fresh, g_ctor_T, g_dtor_T, g_moves; _B
 word_t g_last_alloc;
 struct msq* mon_q;
 /* per-iteration event records of the INT runs */
-word_t it_guard, it_next_val, it_link_desired, it_tail_seen, it_head_seen; _Bool it_acquired, it_next_acquired, it_link_tried, it_link_ok, it_head_validated, it_tail_read;
+word_t it_guard, it_next_val, it_link_desired, it_tail_seen, it_head_seen; _Bool it_acquired, it_next_acquired, it_link_tried, it_link_ok, it_head_validated, it_tail_read; unsigned it_raw_guards;
 unsigned it_tail_cas, it_head_cas, it_reclaims; _Bool it_head_cas_ok; word_t it_reclaimed, g_n, g_value;
 #define IT_RESET it_acquired = 0; it_next_acquired = 0; it_link_tried = 0; it_link_ok = 0; it_head_validated = 0; it_tail_read = 0; \
   it_tail_cas = 0; it_head_cas = 0; it_reclaims = 0; it_head_cas_ok = 0
@@ -46,6 +46,8 @@ unsigned it_tail_cas, it_head_cas, it_reclaims; _Bool it_head_cas_ok; word_t it_
 #define G_acquire(g, cell, order) ((g) = A_LOAD(cell, order), it_guard = (g), it_acquired = 1, it_next_acquired = 0, it_head_validated = 0, it_tail_read = 0)
 #define G_acquire_guard(cell, order) (it_next_val = A_LOAD(cell, order), it_next_acquired = (it_acquired && (void*)&(cell) == (void*)&a_next[nidx(it_guard) % NN]), it_next_val)
 #define G_reclaim(g) (g_reclaim(g), (g) = 0)
+/* guard_ptr(p) from a raw marked_ptr: the object must already be safe from reclamation (null, or still protected by another guard of this thread) */
+#define G_from_raw(p) (it_raw_guards++, (guard_ptr)(p))
 
 /* ---- prototypes of what the lowered text calls (definitions follow the include) ---- */
 static _Bool is_nptr(word_t w);
